@@ -739,6 +739,25 @@ def search(ctx, budget_s):
             if ctx.violations:
                 return
     ctx.notes.append("search: %d further histories through the oracle, no unlisted violation" % n)
+    # the real SumTrees path (hand-out protocol, collation): repeated multiprocessing runs
+    from dv import c06_sumtrees
+    m = 0
+    runs = 0
+    while time.time() - t0 < budget_s * 1.5 and m < 400:
+        case = c06_sumtrees.gen_case(rng, "search%d" % m)
+        case["repeats"] = 6
+        try:
+            obs = c06_sumtrees.observe(case)
+        except Exception as e:
+            ctx.notes.append("search: SumTrees case could not be run: %s: %s" % (type(e).__name__, e))
+            break
+        m += 1
+        runs += len(obs["runs"])
+        for v in c06_sumtrees.oracle_all(case, obs):
+            ctx.violation(v[0], {"case": case, "observed": {k: obs[k] for k in ("files", "runs_summary") if k in obs}}, key=v[1])
+        if ctx.violations:
+            return
+    ctx.notes.append("search: %d further SumTrees cases (%d multiprocessing runs) through the oracle, no unlisted violation" % (m, runs))
 
 
 def slim(obs):
@@ -785,7 +804,7 @@ def run(tier, seed, replay=None):
         if case["kind"] == "direct":
             print("steps:", [[s["err"], s["lens"], s["rooting"]] for s in obs["steps"]])
         return 0
-    ok = core.proof_stage(ctx, ["Props/C06.vo"], gen_needed=("BitFns",))
+    ok = core.proof_stage(ctx, ["Props/C06.vo"], gen_needed=("BitFns", "TreeArrayGen"))
     if not ok:
         core.broken_proof(ctx, search)
     n = 320 if tier == "quick" else 4000
